@@ -14,16 +14,7 @@
 using namespace vf;
 using namespace c06;
 
-// counters of a crashed worker are lost with it (they are only written by finish());
-// write them after every case instead (the runner sums all count lines)
-static void flush_counts() {
-	if (!ctx.out || ctx.counts.empty()) return;
-	std::string c = "{"; bool first = true;
-	for (auto &kv : ctx.counts) { if (!first) c += ","; first = false; c += "\"" + jesc(kv.first) + "\":" + std::to_string(kv.second); }
-	c += "}";
-	fprintf(ctx.out, "{\"t\":\"count\",\"counts\":%s}\n", c.c_str()); fflush(ctx.out);
-	ctx.counts.clear();
-}
+
 
 static std::string fields_json(const Cls &c, const Fields &f) { J j; for (auto &n : c.fields) j.kz(n.c_str(), f.at(n)); return j.str(); }
 static std::string basename_of(const std::string &field) { size_t d = field.rfind('.'); return d == std::string::npos ? field : field.substr(d + 1); }
@@ -149,7 +140,6 @@ static void run_corruptions(long &kcase, const std::vector<Cls> &classes, const 
 				sample = J().kv("class", c.name).kv("field", field).kv("corruption", mut).kv("value", shorten(mpz_dec(nv), 60)).kv("reference", e.ref).kv("library", e.lib).kv("constructor_threw", e.threw).kv("reference_reason", e.why).str();
 			}
 			case_end(d.str(), nt, sample);
-			flush_counts();
 		}
 	}
 }
@@ -205,7 +195,6 @@ static void run_variants(long &kcase, const std::vector<Cls> &classes, const Wor
 			if (vn == "set:safe-prime-3mod8" && e.ref == 0 && e.why == "p != 7 mod 8") count("mod8_clause_decisive");
 			if (fld == "sizes" && e.ref == 0) count("size_clause_decisive");
 			case_end(d.str(), nt, J().kv("class", c.name).kv("variant", vn).kv("fieldsize", F).kv("subgroupsize", G).kv("reference", e.ref).kv("library", e.lib).kv("reference_reason", e.why).str());
-			flush_counts();
 		}
 	}
 }
@@ -260,7 +249,6 @@ static void run_generated(long &kcase, const std::vector<Cls> &classes) {
 		if (!direct) violation("C06/" + c.name + "/generated-set-refused", "CheckGroup refused the set the object generated itself", wit.str());
 		if (!e.lib) violation("C06/" + c.name + "/generated-set-refused-after-reimport", "CheckGroup refused a library-generated set after export and re-import", wit.str());
 		case_end(d.str(), true, J().kv("recipe", rc.first).kv("fieldsize", F).kv("subgroupsize", G).kv("p_bits", (unsigned long)mpz_sizeinbase(f.at("p"), 2)).kv("q_bits", (unsigned long)mpz_sizeinbase(f.at("q"), 2)).kv("reference", e.ref).kv("direct", direct).kv("reimported", e.lib).str());
-		flush_counts();
 	}
 }
 
@@ -317,7 +305,6 @@ static void run_elements(long &kcase, const std::vector<Cls> &classes, const Wor
 			count("toy_groups_checked"); count("cov_elem_toy/" + ec.name);
 			if (members != (long long)t.q) count("toy_member_count_unexpected");   // informational: reference itself says q members
 			case_end(d.str(), true, J().kv("class", ec.name).kv("p", t.p).kv("q", t.q).kv("values", (long long)vals.size()).kv("accepted", members).str(), evals, 1);
-			flush_counts();
 		}
 	}
 	// toy CheckGroup through the import path, incl. canonical derivation with rejected candidates
@@ -338,7 +325,6 @@ static void run_elements(long &kcase, const std::vector<Cls> &classes, const Wor
 				Eval e2 = evaluate(c, f2, F, G); judge(c, "g", "toy-group:g^2", e2, f2, F, G, "toygroup"); n++; }
 		}
 		case_end(d.str(), n > 0, J().kv("class", c.name).kv("toy_sets", n).str(), n, n);
-		flush_counts();
 	}
 	// E: sampled on the full-size CRS of the world (and the QR base)
 	size_t ns = ctx.quick() ? 24 : 200;
@@ -369,7 +355,6 @@ static void run_elements(long &kcase, const std::vector<Cls> &classes, const Wor
 		judge_elems(ec, f, vals, got, "sampled", evals, seen);
 		count("cov_elem_sampled/" + ec.name);
 		case_end(d.str(), true, J().kv("class", ec.name).kv("p_bits", (unsigned long)mpz_sizeinbase(p, 2)).kv("values", (long long)vals.size()).str(), evals, 1);
-		flush_counts();
 	}
 	// recorded, not judged: PedersenCommitmentScheme::TestMembership (range-only test)
 	{ J d; d.kv("sec", "TestMembership-recorded");
@@ -378,8 +363,7 @@ static void run_elements(long &kcase, const std::vector<Cls> &classes, const Wor
 		PedersenCommitmentScheme s(3, in, w.F, w.G); Rng r = case_rng(kcase, 4);
 		for (int i = 0; i < 64; i++) { Z x; r.mpz_below(x, b.at("p")); bool tm = s.TestMembership(x), ref = ref_member(x, b.at("p"), b.at("q"));
 			count(std::string("TestMembership_not_judged/") + (tm ? "true" : "false") + (ref ? "_member" : "_nonmember")); }
-		case_end(d.str(), false, "");
-		flush_counts(); } }
+		case_end(d.str(), false, ""); } }
 }
 
 int main(int argc, char **argv) {
@@ -405,7 +389,6 @@ int main(int argc, char **argv) {
 		std::unique_ptr<World> w3(make_world(2048, 256, 3, false, 0));
 		run_corruptions(k, classes, *w3, "D");
 	}
-	flush_counts();
 	finish();
 	return 0;
 }
